@@ -261,6 +261,16 @@ func (in *Interp) recordFailure(th *Thread, f *Failure, cond *Term) {
 		in.failures = append(in.failures, f)
 		return
 	}
+	// already recorded for this (harness, label, site, class): count it, no model needed
+	h0 := in.harness
+	h0.mu.Lock()
+	if old, ok := h0.failures[f.key()]; ok {
+		old.Count++
+		h0.mu.Unlock()
+		in.failures = append(in.failures, f)
+		return
+	}
+	h0.mu.Unlock()
 	r, m := in.check(cond, in.vars)
 	if r != Sat {
 		if r == Unknown {
